@@ -168,8 +168,11 @@ class ValuesProfile(StoreProfile):
             sc["snaps"][name] = snap
             # a Sid built again from the same uri has the value the first one had (ignoring the process-local hash)
             uri = snap[3]
-            val = [snap[0], snap[1], snap[2]]
+            # fields compared as a mapping: C14 speaks of equality of values, not of key order (a Sid built from a
+            # query keeps the query's key order -- C02/C03 territory, not claimed here)
+            val = [snap[0], snap[1], sorted(map(tuple, snap[2]))]
             first = sc["by_string"].setdefault(uri, val)
+            first = [first[0], first[1], sorted(map(tuple, first[2]))]
             run.check(first == val, "C14.rebuilt_sid_differs", {"uri": uri, "first": first, "now": val, "how": step["e"]})
         elif op == "flood":
             es = [X.call("Sid", "hamlet/a/char/n%d_%d" % (step["salt"], j)) for j in range(step["n"])]
